@@ -278,18 +278,20 @@ def glide_entries(col, facts):
         col.res.ob('R-PANIC', 'GlideProcessor::set_time', False, 'cannot read the fastest setting from the constructor design', where_of(facts, G.GP + '::new'), key='R-PANIC:glide-limits')
         return
     for pi in range(G.N_PARTS):
+        for ck in gl.cached_kinds(tmpl):
+            it = Interp(facts)
+            st = State()
+            st.ctx = ctx0.copy()
+            gp = gl.processor(it, st, tmpl, cached=ck)
+            pname, tterm, fs_ = G.time_partitions(st, S.term, umax, min_fc)[pi]
+            for f in fs_:
+                st.ctx.assume(f)
+            col.run('GlideProcessor::set_time|' + pname + ('|no time in effect' if ck == 'none' else ''), it, st, G.GP + '::set_time', gp, [Num(tterm, 'f32')])
+    for ck in gl.cached_kinds(tmpl):
         it = Interp(facts)
         st = State()
         st.ctx = ctx0.copy()
-        gp = gl.processor(it, st, tmpl)
-        pname, tterm, fs_ = G.time_partitions(st, S.term, umax, min_fc)[pi]
-        for f in fs_:
-            st.ctx.assume(f)
-        col.run('GlideProcessor::set_time|' + pname, it, st, G.GP + '::set_time', gp, [Num(tterm, 'f32')])
-    it = Interp(facts)
-    st = State()
-    st.ctx = ctx0.copy()
-    col.run('GlideProcessor::process', it, st, G.GP + '::process', gl.processor(it, st, tmpl), [float_sym(st, 'x')])
+        col.run('GlideProcessor::process' + ('|no time in effect' if ck == 'none' else ''), it, st, G.GP + '::process', gl.processor(it, st, tmpl, cached=ck), [float_sym(st, 'x')])
 
 
 def quant_entries(col, facts, strong=True):
@@ -449,6 +451,14 @@ def midi_entries(col, facts, strong=True):
                 col.run('MonoMidiReceiver::parse|%s|%s|len%s' % (sname, cname, lr), it, st, M.RX + '::parse', rx, [int_sym(st, 'byte', lo, hi)], post_inv=inv)
     for g in ['note_num', 'pitch_bend', 'velocity', 'mod_wheel', 'volume', 'vcf_cutoff', 'vcf_resonance', 'portamento_time', 'portamento_enabled',
               'sustain_enabled', 'gate', 'rising_gate', 'falling_gate']:
+        if strong and g in ('gate', 'rising_gate', 'falling_gate', 'note_num'):
+            # observers of the gate may assert the class invariant (`debug_assert!(!rising || gate)`): they start from it and,
+            # where they clear a latch, have to re-establish it
+            for lr in len_classes:
+                it = rxf.interp()
+                st = State()
+                col.run('MonoMidiReceiver::%s|len%s' % (g, lr), it, st, M.RX + '::' + g, rxf.receiver(it, st, list_len=lr, class_inv=True), [], post_inv=inv)
+            continue
         it = rxf.interp()
         st = State()
         col.run('MonoMidiReceiver::' + g, it, st, M.RX + '::' + g, rxf.receiver(it, st), [])
